@@ -303,6 +303,9 @@ func c04exec(c *vt.Ctx, r c04run) {
 						g = "jerr:" + strings.TrimPrefix(g, "rsperr:")
 					}
 					ok := false
+					if strings.Contains(g, "+stray-result=") || strings.Contains(g, "+marshals-with") {
+						c.Failf("%s (%s) slot %d (id %s): the Response of the failed call is not a pure error: %q (a failed call carries no result and its JSON form is an error response)", tag, op, k, s.id, g)
+					}
 					if r.settle {
 						// deterministic: the first reply sent for the id wins; a malformed
 						// first reply may yield any error, or be ignored in favour of the next
